@@ -1,7 +1,8 @@
 (* C09 — the JSON and the Cedar schema syntaxes denote the same schema.
    Property theorems only; each is closed by `exact <lemma>` and followed by Print Assumptions.
    Model: coq/model/SchemaSyn.v.  Text-level parsing / printing is correspondence-only (vp/props/c09.py). *)
-From Coq Require Import Permutation.
+From Coq Require Import Permutation String.
+Open Scope string_scope.
 From Cedar Require Import SchemaSyn SchemaSynProofs.
 
 (* PARTIAL (name level).  Writing a must-be-entity or must-be-common reference as a bare name (what fmt.rs
@@ -42,3 +43,24 @@ Theorem c09_validation_same :
     resolve f = SOk s -> resolve f' = SOk s' -> s = s' -> verdict s = verdict s'.
 Proof. exact validation_same. Qed.
 Print Assumptions c09_validation_same.
+
+(* REFUTED.  The full statement  `cedar_roundtrip f = Some f' -> resolve f' = resolve f`  (JSON -> Cedar text ->
+   JSON denotes the same schema whenever the printer accepts) is false of the model that follows the code:
+   an entity type and a common type of the same name in the EMPTY namespace pass fmt.rs's collision test.
+   The witness replayed on the implementation is finding C09:empty-ns-collision (vp/props/c09.py probes). *)
+Theorem c09_cedar_roundtrip_refuted :
+  exists f f' s s',
+    cedar_roundtrip f = Some f' /\ resolve f = SOk s /\ resolve f' = SOk s' /\ s <> s'.
+Proof. exact cedar_roundtrip_refuted. Qed.
+Print Assumptions c09_cedar_roundtrip_refuted.
+
+(* non-vacuity: the hypotheses of the theorems above are satisfiable on concrete fragments *)
+Example c09_resolve_accepts_witness : exists s, resolve collision_witness = SOk s.
+Proof. eexists. vm_compute. reflexivity. Qed.
+Example c09_printer_refuses_collision_in_namespace :
+  cedar_roundtrip (map (fun ns => mkNs [s2str "NS"] (ns_commons ns) (ns_entities ns) (ns_actions ns)) collision_witness) = None.
+Proof. exact collision_in_namespace_refused. Qed.
+Example c09_reference_form_instance :
+  resolve_name RBoth [[s2str "C"]] [[s2str "NS"; s2str "E"]] [s2str "NS"] [s2str "E"] =
+  resolve_name REntity [[s2str "C"]] [[s2str "NS"; s2str "E"]] [s2str "NS"] [s2str "E"].
+Proof. vm_compute. reflexivity. Qed.
